@@ -14,6 +14,10 @@ CHECKS = {
          "Exploration: truncate is checked on every string of <=5 symbols over a 5-symbol multi-byte/invalid alphabet x 11 sizes x 5 trails and on tens of thousands of random payloads; the escapers on every byte, fixed hostile payloads and random payloads, directly and through templates; toJSON on a recursive generator with decode-back.",
          "Trusts html.UnescapeString / encoding/json as decoders; 'character' = rune.",
          "DESIGN.md §4 C20"),
+ "C19": ("exhaustive small-range + int-extreme argument enumeration, rapid random arguments; math/big reference interval, partition-law validity predicate, differential between the two groupBy implementations",
+         "Exploration: every a,b,n in [-8,8] and every combination of 7 int extremes per argument position walk in lock-step with a math/big model (<=64 steps, so termination is decided without running 2^63 steps); groupBy for all lengths 0..40 x n in [-2,12] x 4 element types x 4 container forms against the partition laws and against the second implementation; len against Go's len.",
+         "An iterator agreeing with the model for 64 steps on a longer interval is accepted without being run to its end.",
+         "DESIGN.md §4 C19"),
 }
 
 NOT_BUILT = "check not built yet in this session (see DESIGN.md §4 for its plan); will be claimed once its check is committed"
